@@ -112,6 +112,43 @@ func verifSplit(s string, sep byte) []string {
 	return append(out, cur)
 }
 
+// VerifLongNumbers: numeric components are compared as numbers of any length (the ecosystems'
+// published orderings agree on that): two versions that differ only in the last digit of a
+// 20-digit component just above 2^64 compare like those digits.
+func VerifLongNumbers() {
+	eco := verifrt.ParamStr("eco")
+	tpl := verifrt.ParamStr("template") // N marks the long component
+	mk := func(label string) (string, byte) {
+		d := verifrt.Byte(label)
+		verifrt.Assume(verifrt.And(d >= '0', d <= '9'))
+		long := "1844674407370955161" + string([]byte{d}) // 18446744073709551610 .. 19
+		out := ""
+		for i := 0; i < len(tpl); i++ {
+			if tpl[i] == 'N' {
+				out += long
+			} else {
+				out += tpl[i : i+1]
+			}
+		}
+		return out, d
+	}
+	a, da := mk("a")
+	b, db := mk("b")
+	va, err := Parse(a, eco)
+	verifrt.Assert(err == nil, "a version of the ecosystem's grammar is accepted")
+	if err != nil {
+		return
+	}
+	c, err := va.CompareStr(b)
+	verifrt.Assert(err == nil, "comparing two versions of the ecosystem's grammar succeeds")
+	if err != nil {
+		return
+	}
+	verifrt.Reach("compared")
+	want := verifrt.IteInt(da < db, -1, verifrt.IteInt(da > db, 1, 0))
+	verifrt.Assert(c == want, "numeric components of any length compare numerically")
+}
+
 // VerifTrans3: on versions that are valid in the ecosystem's grammar (built from the shapes given
 // as parameter, with symbolic digits and letters) the comparison is a total preorder.
 func VerifTrans3() {
